@@ -65,6 +65,9 @@ func c05Data(r *Rand, labels []string, allowDollar bool) PStmt {
 			} else {
 				s.Items = append(s.Items, strItem(str))
 			}
+		case x == 10 && w > 1 && allowDollar && r.Chance(1, 30):
+			// the label that ends every program: defined further down (gosk refuses such an element: finding F502)
+			s.Items = append(s.Items, DItem{Kind: "label", Label: "zend", Text: "zend"})
 		case x == 10 && len(labels) > 0:
 			l := Pick(r, labels)
 			s.Items = append(s.Items, DItem{Kind: "label", Label: l, Text: l})
